@@ -63,5 +63,17 @@ CHECKS.update({
   text="All ordered pairs of texts with <=4 lines over {a,b,c} and <=6 over {a,b} (quick; <=5/<=7 thorough) with/without trailing newline, periodic texts, and a long-run family (runs of 13..20 equal/deleted/inserted lines, up to 3-7 runs) through diff.LineDiff: the rendered diff is parsed strictly (hunk order, header line numbers and sizes, context lines), applied to the first text and must yield the second; the number of +/- lines must equal |a|+|b|-2*LCS; empty iff equal.",
   note="Only LineDiff is exported, so the edit script is observed through the rendered text. Two known findings about the '... N lines skipped ...' abbreviation are listed in known_findings.json (by-design elision; header size counts the marker).",
   design="§5.C27"),
+ "C09": dict(
+  category="exploration",
+  technique="bounded exhaustive enumeration of lexer rule sets (regex ASTs by size) x all inputs x start conditions vs a Brzozowski-derivative reference matcher",
+  text="Rule sets of <=3 rules, each a regex AST of <=4 nodes over atoms {a,b,[ab],.} (+ byte-mode atoms) with * + ? {1,2} |, named patterns, {eoi}, relative priorities, start-condition subsets of {0,1}, fold on/off, byte mode on/off, enumerated by size; for every set lex.Compile accepts, every text over {a,b,c,A,e-acute,\\xff} up to length 4 (5 thorough) in every start condition is scanned with Tables.Scan and compared with the statement's rule (longest non-empty match, highest-priority rule, fallback to the last accepted position, else invalid token spanning the longest live prefix) computed by an independent derivative matcher; compile errors (empty match, identical rules) compared too.",
+  note="Where the statement is silent (malformed byte in rune mode = U+FFFD one byte wide; {eoi} as zero-width pseudo symbol; byte-mode literals above 0x7f mean their UTF-8 bytes) the reference follows the implementation, documented in internal/rxref. An internal 60 s / 15 min deadline caps the last enumeration level on a loaded machine (reported as exhaustive:false).",
+  design="§5.C09"),
+ "C24": dict(
+  category="exploration",
+  technique="bounded exhaustive enumeration of byte-mode rule sets x all byte strings <=4; shift-DFA scanner vs lexer tables",
+  text="Rule sets of <=3 rules of <=4 nodes over 14 byte-mode atoms (incl. [\\x80-\\xbf], [\\xc0-\\xff], \\xe9, [^a]) with relative priorities; for every set shiftdfa's packer accepts, every byte string of length <=4 over {a,b,0x7f,0x80,0xbf,0xc3,0xff} is scanned by the shift-DFA scanner and by lex.Tables.Scan on tables compiled from the same rules: length and token must agree.",
+  note="Tables are rebuilt from the same rules exactly as shiftdfa.Compile does (it does not export them).",
+  design="§5.C24"),
 })
 NOT_APPLICABLE_REASON = {}
